@@ -160,6 +160,7 @@ class Analysis:
         self.refroot = {}
         self._immut = None
         self._same_len = None
+        self._deps = None
         self._prescan()
         self.entry = {}
         self._run()
@@ -1644,6 +1645,146 @@ class Analysis:
                 restore = (x, [elems[j] if (j < lo or j >= hi) else erng for j in range(len(elems))])
         return ref_len, restore
 
+    # ------------------------------------------------------------------ re-evaluation after a refinement
+    def _stable_local(self, l):
+        """A local whose value, once defined, never changes: single definition (or a parameter never assigned),
+        never mutably borrowed."""
+        if l in self.escaped:
+            return False
+        defs = self.v.defs.get(l, [])
+        if self.v.is_arg(l):
+            return not defs
+        return len(defs) == 1
+
+    def _dependents(self):
+        """local -> [(block, kind, stmt-or-term)]: single-definition statements that are pure functions of stable
+        locals (arithmetic, casts, copies, slice-length reads, range literals, range indexing)."""
+        if self._deps is not None:
+            return self._deps
+        deps = {}
+        v = self.v
+
+        def stable_operand(o):
+            if o.get("o") == "const":
+                return True
+            if o.get("o") not in ("copy", "move"):
+                return False
+            if o["p"] and self.path_of(o["p"]) is None:
+                return False
+            return self._stable_local(o["l"])
+        for bi in v.reachable:
+            blk = v.blocks[bi]
+            for s_ in blk["stmts"]:
+                if s_["s"] != "assign" or s_["pl"]["p"]:
+                    continue
+                d = s_["pl"]["l"]
+                if not self._stable_local(d) or v.is_arg(d):
+                    continue
+                rv = s_["rv"]
+                kind = None
+                if rv["r"] in ("use", "bin") or (rv["r"] == "cast" and rv.get("kind") == "IntToInt") \
+                        or (rv["r"] == "un" and rv["op"] == "PtrMetadata"):
+                    kind = "value"
+                elif rv["r"] == "agg" and str(rv.get("def", "")).startswith("core::ops::range::Range"):
+                    kind = "through"
+                if kind is None:
+                    continue
+                ops_ = ir.operands_of_rvalue(rv)
+                if not all(stable_operand(o) for o in ops_):
+                    continue
+                for o in ops_:
+                    if o.get("o") in ("copy", "move"):
+                        deps.setdefault(o["l"], []).append((bi, kind, s_))
+            t = blk["term"]
+            if t["t"] == "call" and not t["dest"]["p"]:
+                name = ir.callee_name(t["fn"])
+                d = t["dest"]["l"]
+                if name is not None and "::index::Index" in name and "for str>" not in name and len(t["args"]) == 2 \
+                        and self._stable_local(d) and all(stable_operand(o) for o in t["args"]) \
+                        and all(o.get("o") in ("copy", "move") and not o["p"] for o in t["args"]):
+                    for o in t["args"]:
+                        deps.setdefault(o["l"], []).append((bi, "index", t))
+        self._deps = deps
+        return deps
+
+    def propagate(self, st, before, at_block):
+        """After `before` was refined into `st` on an edge out of at_block: re-evaluate, in dependency order, the
+        stable locals computed from the refined ones by statements that dominate at_block (`let n = (bits + 7) / 8;
+        if bits > C { .. }`: the branch also bounds n).  Only ever narrows."""
+        deps = self._dependents()
+        if not deps:
+            return
+        work = []
+        for k, iv in st.iv.items():
+            if before.iv.get(k) != iv:
+                r = key_root(k)
+                if isinstance(r, int) and r in deps and r not in work:
+                    work.append(r)
+        doms = self.v.dom.get(at_block, ())
+        budget = 64
+        while work and budget > 0:
+            budget -= 1
+            l = work.pop(0)
+            for bi, kind, s_ in deps.get(l, ()):
+                if bi != at_block and bi not in doms:
+                    continue
+                if kind == "through":
+                    d = s_["pl"]["l"]
+                    if d in deps and d not in work:
+                        work.append(d)
+                    continue
+                if kind == "index":
+                    d = s_["dest"]["l"]
+                    if self.pointee_ty(d) is None or self.pointee_ty(d)["k"] != "slice" or d in st.alias:
+                        continue
+                    keep = getattr(self, "_same_len", None)
+                    ref_len, _restore = self.index_call(st, ir.callee_name(s_["fn"]), s_["args"][0]["l"], s_["args"][1])
+                    self._same_len = keep
+                    if ref_len is None or ref_len[0] != "iv":
+                        continue
+                    key, new = ("len", d), ref_len[1]
+                else:
+                    d = s_["pl"]["l"]
+                    rv = s_["rv"]
+                    rng = self.rng[d]
+                    if rng is None:
+                        if not (rv["r"] == "bin" and rv["op"].endswith("WithOverflow")):
+                            continue
+                        tt = self.v.local_ty(d)
+                        etn = tt["ts"][0]["n"] if (tt.get("k") == "tuple" and tt["ts"] and tt["ts"][0].get("k") == "prim") else None
+                        erng = ty_range(etn) if etn else None
+                        a_, _ = self.eval_operand(st, rv["a"])
+                        b_, _ = self.eval_operand(st, rv["b"])
+                        if erng is None or a_ is None or b_ is None:
+                            continue
+                        op_ = rv["op"][:-len("WithOverflow")]
+                        if op_ == "Add":
+                            new = (a_[0] + b_[0], a_[1] + b_[1])
+                        elif op_ == "Sub":
+                            new = (a_[0] - b_[1], a_[1] - b_[0])
+                        elif op_ == "Mul":
+                            c_ = [a_[0] * b_[0], a_[0] * b_[1], a_[1] * b_[0], a_[1] * b_[1]]
+                            new = (min(c_), max(c_))
+                        else:
+                            continue
+                        if new[0] < erng[0] or new[1] > erng[1]:
+                            continue
+                        key = ("pl", d, (("f", 0),))
+                    else:
+                        new, _al = self.eval_rvalue(st, rv, rng, self.v.local_tyname(d))
+                        key = d
+                        if new is None:
+                            continue
+                cur = self.get(st, key)
+                if cur is None:
+                    continue
+                m = meet(cur, new)
+                if m[0] > m[1] or m == cur:
+                    continue
+                st.iv[key] = m
+                if d in deps and d not in work:
+                    work.append(d)
+
     # ------------------------------------------------------------------ branches
     def refine(self, st, op, ak, bk, truth):
         """Refine st under (ak op bk) == truth. Returns False if infeasible."""
@@ -1919,6 +2060,9 @@ class Analysis:
                     if key is not None:
                         self.set(ns, key, (v, v))
                 out.append((s, ns))
+            for _s, ns in out:
+                if ns is not st:
+                    self.propagate(ns, st, bi)
             return out
         if t["t"] == "assert":
             ns = st
